@@ -41,6 +41,12 @@ def mk(kind, scripts, late, leaver, sched, react=None, leaver_first=False, closi
         # producers push, the FINISHED subscription of U2 is unsubscribed as ordinary clean-up: U0 stays subscribed throughout
         init = [["sub", 2, 0], ["complete", 0] if closing == "reuse-c" else ["error", 0, 5], ["sub", 0, 0]]
         threads.append(["u", ["unsub", 2]])
+    if closing == "twosub":
+        # TWO threads subscribe at once (U1, U2); afterwards the subject is pushed to, U2 leaves, and it is pushed to again: U0 and U1
+        # receive everything, U2 the first batch
+        threads.append(["s1", ["sub", 1, 0]])
+        threads.append(["s2", ["sub", 2, 0]])
+        fini = [["next", 0, 701], ["next", 0, 702], ["unsub", 2], ["next", 0, 703]]
     if closing is not None and closing.startswith("newrace-"):
         # a plain Subject is closed by one thread while another subscribes U1; afterwards the (re-usable) subject is pushed to once
         # more: U1 either was in time for the terminal, or it is a subscriber of the re-used subject and receives the push
@@ -53,7 +59,7 @@ def mk(kind, scripts, late, leaver, sched, react=None, leaver_first=False, closi
         # no producers: a thread closes the subject while another one subscribes U1 - whichever comes first, U1 ends with that terminal
         threads.append(["s", ["sub", 1, 0]])
         threads.append(["x", ["complete", 0] if closing == "race-c" else ["error", 0, 5]])
-    elif closing is not None and not closing.startswith("reuse-") and not closing.startswith("newrace-"):
+    elif closing is not None and not closing.startswith("reuse-") and not closing.startswith("newrace-") and closing != "twosub":
         # the producers' threads have finished; the subject is closed; only then does U1 subscribe: a ReplaySubject hands it every
         # item ever pushed (once, in push order) and the terminal, a BehaviorSubject the terminal alone
         fini = [["complete", 0] if closing == "c" else ["error", 0, 5], ["sub", 1, 0]]
@@ -94,6 +100,9 @@ def generate(rng, tier, seed):
                 cases.append(mk(kind, [], True, False, ["pct", 3, base, 300 if thorough else 100], closing=cases[-1]["closing"]))
             if kind[1] in ("replay", "behavior") and rng.random() < 0.5:
                 cases.append(mk(kind, scripts, True, False, ["random", base, 20 if thorough else 8], closing=rng.choice(["c", "e"])))
+            if rng.random() < 0.5:
+                cases.append(mk(kind, [], False, False, ["random", base, 120 if thorough else 50], closing="twosub"))
+                cases.append(mk(kind, [], False, False, ["pct", 3, base, 120 if thorough else 50], closing="twosub"))
             if kind[1] == "subject" and rng.random() < 0.6:
                 cl = rng.choice(["newrace-c", "newrace-e"])
                 cases.append(mk(kind, [], False, False, ["random", base, 200 if thorough else 80], closing=cl))
@@ -140,6 +149,13 @@ def judge_one(case, ob):
     for u in (0, 1, 2):
         mine = [c for c in cbs if c[0] == u]
         closing = case.get("closing")
+        if closing == "twosub":
+            got = [str(c[1][1]) for c in mine if c[1][0] == "n" and str(c[1][1]) in ("701", "702", "703")]
+            want = ["701", "702"] if u == 2 else ["701", "702", "703"]
+            if got != want:
+                bad.append("U1 and U2 subscribed concurrently, then 701 702 were pushed, U2 left, 703 was pushed: U%d received %s, expected %s" % (u, got, want))
+            logs[u] = []
+            continue
         if closing and closing.startswith("newrace-"):
             want = closing[-1]
             evs = [[str(x) for x in c[1]] for c in mine]
